@@ -74,6 +74,7 @@ func runC17(c *Ctx) {
 	ruleAllocBounded(c, "slice", true)
 	ruleSizeGuard(c, "slice")
 	ruleConstIndex(c, "slice")
+	ruleOffsetSiblings(c)
 	// a count or index is never bounded by the CAPACITY of an input: what lies between len and cap is not part of it
 	c.rule("R-NO-CAP-BOUND", 0, "no comparison in package slice bounds a count or index by cap(input) (floor 0: the unchanged tree has none)")
 	for _, fn := range P.PkgFuncs("slice") {
@@ -576,6 +577,46 @@ func ruleAllocBounded(c *Ctx, pkg string, needSliceParam bool) {
 				c.sawFn(fnName(fn))
 				c.judge(okAll, "R-ALLOC-BOUNDED", fmt.Sprintf("%s:make sized by %s #%d", fnName(fn), bare[0].Name(), n), mk.Pos(), "the count is bounded by a length where it sizes the allocation", fmt.Sprintf("the allocation is sized by the parameter %s as passed in: a count larger than the input (which the documentation allows and caps) makes it panic or allocate without bound", bare[0].Name()))
 			}
+		})
+	}
+}
+
+// ruleOffsetSiblings (R-OFFSET-SIBLING): the package's offset normalisers — unexported functions (i, n int) (int, bool)
+// that add n to a negative offset — agree on WHEN they add it: "negative offsets count backward from the end" is
+// i < 0 in all of them.  One that adjusts on i <= 0 (or i < 1) turns offset 0 into n.
+func ruleOffsetSiblings(c *Ctx) {
+	c.rule("R-OFFSET-SIBLING", 0, "every offset normaliser (i, n int) (int, bool) of package slice adds n exactly when i < 0")
+	for _, fn := range c.P.PkgFuncs("slice") {
+		if fn.Parent() != nil || fn.Object() == nil || fn.Object().Exported() || len(fn.Params) != 2 || fn.Signature.Results().Len() != 2 {
+			continue
+		}
+		if !isIntType(fn.Params[0].Type()) || !isIntType(fn.Params[1].Type()) {
+			continue
+		}
+		i, n := ssa.Value(fn.Params[0]), ssa.Value(fn.Params[1])
+		// i += n under a test of i
+		fn := fn
+		allInstrs(fn, func(in ssa.Instruction) {
+			bo, ok := in.(*ssa.BinOp)
+			if !ok || bo.Op != token.ADD || !((bo.X == i && bo.Y == n) || (bo.X == n && bo.Y == i)) {
+				return
+			}
+			var guard *Cmp
+			for _, cm := range cmpsAt(bo.Block()) {
+				cm := cm
+				if cm.X == i {
+					if _, isK := constInt(cm.Y); isK {
+						guard = &cm
+					}
+				}
+			}
+			if guard == nil {
+				return
+			}
+			k, _ := constInt(guard.Y)
+			good := (guard.Op == token.LSS && k == 0) || (guard.Op == token.LEQ && k == -1)
+			c.sawFn(fnName(fn))
+			c.judge(good, "R-OFFSET-SIBLING", fnName(fn)+":adjusts negative offsets", bo.Pos(), "i += n exactly when i < 0", fmt.Sprintf("%s adds the length when i %s %d: offset 0 is turned into the length (the end of the slice instead of its start)", fn.Name(), guard.Op, k))
 		})
 	}
 }
